@@ -35,6 +35,11 @@ type Program struct {
 	A   int  `json:"a"`            // type index of From
 	AV  int  `json:"av,omitempty"` // variant (see Op.V) of From's source value
 	Ops []Op `json:"ops"`
+	// Mid lists steps (index into Ops, -1 = From) after which the program
+	// built so far is visited before construction goes on: every intermediate
+	// morphism is still handed to exactly one combinator; looking at it must
+	// not change what later visits report.
+	Mid []int `json:"mid,omitempty"`
 }
 
 // mkF and mkT build the value a step is given, in the variant asked for.
@@ -110,9 +115,16 @@ func allOps() []Op {
 
 // build runs the real combinators. Step i carries the identity 100+i as its
 // F / Source / Target payload.
-func build(p Program) (m any, finalType int) {
+func build(p Program) (m any, finalType int) { return buildObserved(p, nil) }
+
+// buildObserved calls look (when not nil) after From (i = -1) and after every
+// step with the morphism built so far and its current type.
+func buildObserved(p Program, look func(i int, m any, b int)) (m any, finalType int) {
 	m = fromTab[p.A](100, p.AV)
 	b := p.A
+	if look != nil {
+		look(-1, m, b)
+	}
 	for i, op := range p.Ops {
 		id := 101 + i
 		switch op.K {
@@ -128,6 +140,9 @@ func build(p Program) (m any, finalType int) {
 			m = yieldTab[[2]int{p.A, b}](m, id, op.V)
 		}
 		b, _ = next(b, op)
+		if look != nil {
+			look(i, m, b)
+		}
 	}
 	return m, b
 }
@@ -295,7 +310,27 @@ func checkProgram(p Program, onlyFault int, st *c16Stats) *driver.Violation {
 	}
 	var want []cb
 	expected(model(p), 0, &want)
-	m, ft := build(p)
+	var midViol *driver.Violation
+	m, ft := buildObserved(p, func(i int, mid any, b int) {
+		look := false
+		for _, at := range p.Mid {
+			look = look || at == i
+		}
+		if !look || midViol != nil {
+			return
+		}
+		var wantMid []cb
+		expected(model(Program{A: p.A, AV: p.AV, Ops: p.Ops[:i+1]}), 0, &wantMid)
+		r := &recorder{failAt: -1}
+		err := applyTab[[2]int{p.A, b}](mid, r)
+		st.visits++
+		if err != nil || !sameTrace(r.trace, wantMid) {
+			midViol = viol("C16.a", "visit of the program built so far does not report the steps declared so far", "program %v: visit after step %d returned %v\n got  %s\n want %s", p, i, err, traceStr(r.trace), traceStr(wantMid))
+		}
+	})
+	if midViol != nil {
+		return midViol
+	}
 	apply := applyTab[[2]int{p.A, ft}]
 	rec := &recorder{failAt: -1}
 	err := apply(m, rec)
@@ -415,6 +450,14 @@ func sameTrace(a, b []cb) bool {
 
 func genProgram(r *driver.Rand, maxLen int) Program {
 	p := genProgram0(r, maxLen)
+	// visits in the middle of construction
+	if r.Chance(1, 4) {
+		for i := -1; i < len(p.Ops)-1; i++ {
+			if r.Chance(1, 3) {
+				p.Mid = append(p.Mid, i)
+			}
+		}
+	}
 	// how the F / T values of the steps came about
 	if r.Chance(1, 3) {
 		if r.Chance(1, 3) {
